@@ -83,3 +83,20 @@ def transitiveCallouts : List (String × String) :=
     fun c => (c.typ ++ "." ++ c.meth, c.callee)).eraseDups
 
 end Uniflow.Lockset
+
+namespace Uniflow.Lockset
+open Uniflow.Generated.Locks
+
+/-! ### slices that escape a critical section
+
+A method may copy a slice header out of a field under the lock and walk the slice after
+releasing it (`hooks := p.openHooks; p.mu.Unlock(); hooks.Open(proc)`). The field accesses are
+all guarded, yet the *backing array* is now read without the lock: it must never be written in
+place again (no `s[i] = v`, no `append(s[:i], …)` – removal has to allocate). -/
+
+/-- Every snapshotted slice field is never written in place, or is on the list `cleared` of
+fields whose snapshot is taken by the critical section that also clears the field. -/
+def snapshotsSafe (cleared : List (String × String)) (snaps inpl : List (String × String × String)) : Bool :=
+  snaps.all fun s => cleared.contains (s.1, s.2.2) || !(inpl.any fun w => w.1 == s.1 && w.2.2 == s.2.2)
+
+end Uniflow.Lockset
